@@ -20,10 +20,10 @@ P, bc = families.P, families.by_class
 
 def tasks3():
     return {
-        'L0': {'name': 'l0', 'params': [P('shared'), P('own0', default='d0'), P('ren', nic='renamed_in_config', default='r'), P('num', dtype='int', default=1), P('mut', default=None)],
+        'L0': {'name': 'l0', 'params': [P('shared'), P('own0', default='d0'), P('ren', nic='renamed_in_config', default='r'), P('num', dtype='int', default=1), P('mut', default=None), P('rate', dtype='float', default=0.5)],
                'inputs': [], 'data': 'json'},
         'L1': {'name': 'l1', 'params': [P('shared'), P('own1', default='d1'), P('pth', dtype='Path', default=None), P('mut', default=None)], 'inputs': [], 'data': 'json'},
-        'L2': {'name': 'l2', 'params': [P('shared', default='dflt2'), P('own2'), P('mut', default=None)], 'inputs': [], 'data': 'json'},
+        'L2': {'name': 'l2', 'params': [P('shared', default='dflt2'), P('own2'), P('mut', default=None), P('rate', default=0.25)], 'inputs': [], 'data': 'json'},
     }
 
 
@@ -36,7 +36,7 @@ MEDIA = {
 
 def base_desc(as_mid, as_low, media, values=None):
     m0, m1, m2 = [dict(x) for x in MEDIA[media]]
-    v = values or ({'shared': 's0', 'renamed_in_config': 'rr', 'ren': 'ignored-key'}, {'shared': 's1', 'pth': '/p/q'}, {'own2': 'o2'})
+    v = values or ({'shared': 's0', 'renamed_in_config': 'rr', 'ren': 'ignored-key', 'rate': 1e-05}, {'shared': 's1', 'pth': '/p/q'}, {'own2': 'o2', 'rate': 1e+16})  # floats whose JSON text has an exponent and no dot
     cfgs = {
         'root': dict(m0, tasks=['L0'], values=dict(v[0]), uses=[{'config': 'mid', 'as': as_mid}]),
         'mid': dict(m1, tasks=['L1'], values=dict(v[1]), uses=[{'config': 'low', 'as': as_low}]),
@@ -58,7 +58,7 @@ def contexts(as_mid, as_low):
     out = {
         'none': None,
         'dict': D({'shared': 'cx', 'own1': 'c1'}),
-        'json': F('json', {'shared': 'cx', 'own2': 'c2'}),
+        'json': F('json', {'shared': 'cx', 'own2': 'c2', 'rate': 2e-06}),
         'yaml': F('yaml', {'own0': 'y0', 'num': 5}),
         'object': F('object', {'shared': 'obj'}),
         'list2': {'kind': 'list', 'items': [D({'shared': 'cA', 'own1': 'A1'}), D({'shared': 'cB', 'own0': 'cB0'})]},
